@@ -1,12 +1,14 @@
 //! Conformance driver for C19 (names are validated, domains are isolated).
 //!   enumerate --oracle <json> --len 2|3 [--sample N] ...   all byte strings vs. the TLC oracle table
 //!   edits --runs N --out <trace>                           structured random strings + edit sequences
+//!   ctors --out <trace> [--more]                           every construction path, lengths around the capacity
 //!   domains --work <dir> --tag <t> --out <trace>           two REAL domains in one temporary tree
 //!   victim --root <dir> --prefix <p> --service <name>      helper process that is killed by `domains`
 //! The traces are validated by TLC (spec/data/NamesTrace.tla, DomainsTrace.tla).
 
 extern crate iceoryx2_bb_loggers;
 
+mod ctors;
 mod domains;
 mod strings;
 
@@ -18,6 +20,7 @@ fn main() {
     match args.positional(0).as_deref() {
         Some("enumerate") => strings::enumerate(&args),
         Some("edits") => strings::edits(&args),
+        Some("ctors") => ctors::main(&args),
         Some("domains") => domains::main(&args),
         Some("victim") => domains::victim(&args),
         other => {
